@@ -1489,8 +1489,10 @@ impl Service {
             self.connectivity_state.received_incoming_connection(socket);
         }
 
-        // Ignore sessions with non-contactable ENRs
-        if self.ip_mode.get_contactable_addr(&enr).is_none() {
+        // Ignore sessions with non-contactable ENRs and ENRs excluded by the configured table
+        // filter
+        if self.ip_mode.get_contactable_addr(&enr).is_none() || !(self.config.table_filter)(&enr)
+        {
             return;
         }
 
